@@ -510,7 +510,31 @@ func (f *Facts) resolveAnchors(p *Prog) {
 			return "does not contain the switch over Event.Type"
 		}},
 		{"compactEvents", func(p *Prog, fn *ssa.Function) string {
-			if len(callsTo(fn, p.ErgoFn("newEvent"))) < 3 {
+			// counted over the function and the private helpers it is split into; a generic emitter (collector.add)
+			// counts once per call site
+			ne := p.ErgoFn("newEvent")
+			seen := map[*ssa.Function]bool{fn: true}
+			work := []*ssa.Function{fn}
+			n := 0
+			for d := 0; len(work) > 0 && d < 64; d++ {
+				g := work[0]
+				work = work[1:]
+				n += len(callsTo(g, ne))
+				for _, call := range callsIn(g) {
+					cal := call.Common().StaticCallee()
+					if cal == nil || !p.InModule(cal) || cal.Blocks == nil || cal == ne {
+						continue
+					}
+					if len(callsTo(cal, ne)) > 0 && seen[cal] {
+						n++ // another call of an emitter already counted
+					}
+					if !seen[cal] {
+						seen[cal] = true
+						work = append(work, cal)
+					}
+				}
+			}
+			if n < 3 {
 				return "does not re-emit events via newEvent"
 			}
 			return ""
